@@ -62,6 +62,7 @@ def run(ctx):
                 cases.append((fname, c, i))
     reqs = [{"op": "codec.encode", "fl": f, "i": H.instr_to_json(i)} for f, c, i in cases]
     outs = ctx.driver.batch(reqs)
+    dec_cases = []
     for (f, c, i), rq, mo in zip(cases, reqs, outs):
         res.evaluations += 1
         j = rq["i"]
@@ -78,8 +79,22 @@ def run(ctx):
         if rb != ref or len(rb) != 7:
             res.failures.append({"what": "bytes differ from the 7-byte layout of the statement", "kf": None,
                                  "input": {"i": j, "real": rb, "reference": ref}})
+        # read side: bytes in the published layout (reference encoder) must be read back by the
+        # real decoder as the same instruction in every flavour that has the class
+        rd = H.real_decode(f, ref)
+        rdj = H.instr_to_json(rd) if rd is not None else None
+        if rdj != j and not (f == "vanilla" and c.id == 41):  # opcode 41 clash is C01's finding F1
+            res.failures.append({"what": "bytes in the published layout are not read back as the instruction",
+                                 "kf": None, "input": {"fl": f, "i": j, "bytes": ref, "read": rdj}})
+        dec_cases.append((f, ref, rdj))
         if len(res.samples) < 5 and res.evaluations % 211 == 0:
             res.samples.append({"i": j, "bytes": rb})
+    outs = ctx.driver.batch([{"op": "codec.decode", "fl": f, "b": b} for f, b, _ in dec_cases])
+    for (f, b, rdj), mo in zip(dec_cases, outs):
+        res.evaluations += 1
+        if mo.get("i") != rdj:
+            res.disagreements.append({"stream": "codec.decode", "input": {"fl": f, "b": b},
+                                      "model": mo.get("i"), "code": rdj})
     # subroutine header
     for app in [0, 1, 255, 256, 0x1234, 65535] + [rng.randrange(65536) for _ in range(20)]:
         for ver in [(0, 0), (0, 10), (255, 1), (rng.randrange(256), rng.randrange(256))]:
